@@ -15,7 +15,7 @@ import (
 // C03Case is a constraint set with a cost function and the way it reaches gophersat.
 type C03Case struct {
 	P     *ref.Problem `json:"p"`
-	Front string       `json:"front"` // cnf | card | pb | opb
+	Front string       `json:"front"`       // cnf | card | pb | opb
 	M     *gen.MaxSat  `json:"m,omitempty"` // when set, P is the relaxed form of M (one relaxation variable per soft clause) and M gives the reference optimum
 	CP    bool         `json:"cp,omitempty"`
 }
